@@ -6,5 +6,5 @@ THEOREMS = [
     "Pt.lower_stack_accesses", "Pt.lower_concat_accesses",
     "Pt.pad_accesses_inbounds", "Pt.einsum_accesses_inbounds",
     "Pt.advindex_accesses_affine_inbounds",
-    "Pt.binop_accesses_inbounds", "Pt.where_accesses_inbounds",
+    "Pt.binop_accesses_inbounds", "Pt.where_accesses_inbounds", "Pt.reduce_accesses_inbounds",
 ]
